@@ -251,7 +251,7 @@ def run_case(case, ctx):
         if how == "replicate":
             S2 = out.replicate(tuple(2 if i == k else 1 for i in range(3)))
         elif how == "cell_vector_doubled_in_place":
-            out.cell[k] *= 2.0
+            out.cell[k] *= 2
             S2 = out
         else:
             newcell = np.array(out.cell, float)
